@@ -252,7 +252,7 @@ func (c *Ctx) runWorker(self string, i, n int, extra []string) (*Report, string)
 				return r, fmt.Sprintf("worker %d/%d ended abnormally (%v) at case %s", i, n, werr, last)
 			}
 		}
-		return nil, fmt.Sprintf("worker %d/%d ended abnormally (%v) at case %q: %s", i, n, werr, last, tail(errb.String(), 1500))
+		return nil, fmt.Sprintf("worker %d/%d ended abnormally (%v) at case %q: %s ... %s", i, n, werr, last, head(errb.String(), 1200), tail(errb.String(), 600))
 	}
 	return rep, ""
 }
@@ -267,6 +267,13 @@ func (l *limitedWriter) Write(p []byte) (int, error) {
 		l.w.Write(p)
 	}
 	return len(p), nil
+}
+
+func head(s string, n int) string {
+	if len(s) > n {
+		return s[:n]
+	}
+	return s
 }
 
 func tail(s string, n int) string {
